@@ -210,7 +210,7 @@ def _go1(code, want):
     n = (PART // 5) % (NMAX + 1)
     if kind == 'apply':
         n += 1                                   # apply has no empty input: argument positions 0..NMAX
-    c = nd.draw(0, CMAX) if kind in ('map', 'starmap', 'imap', 'imapu') else 0
+    c = nd.draw(0, CMAX) if kind in ('map', 'starmap') else nd.draw(0, 2) if kind in ('imap', 'imapu') else 0
     p_size = 1 + nd.draw(0, 1)
     if THOROUGH:
         bad = 0
